@@ -10,7 +10,9 @@ import (
 	"bytes"
 	"fmt"
 	"reflect"
+	"sort"
 	"strings"
+	"sync"
 )
 
 // Options steer a comparison.
@@ -39,6 +41,48 @@ func KeyPath(diffs []string) string {
 		p = p[i:]
 	}
 	return p
+}
+
+const libPrefix = "github.com/Eyevinn/mp4ff/"
+
+var (
+	unknownMu      sync.Mutex
+	unknownPrivate = map[string]bool{}
+)
+
+func noteUnknownPrivate(k string) {
+	unknownMu.Lock()
+	unknownPrivate[k] = true
+	unknownMu.Unlock()
+}
+
+// UnknownPrivateField reports whether field i of struct type t is an unexported library field the
+// comparators were not written against (a cache added to the library later, say): its meaning is
+// unknown, so a difference in it is no verdict. Such fields are noted (see UnknownPrivate).
+func UnknownPrivateField(t reflect.Type, i int) bool {
+	sf := t.Field(i)
+	if sf.PkgPath == "" || !strings.HasPrefix(sf.PkgPath, libPrefix) {
+		return false
+	}
+	k := sf.PkgPath[len(libPrefix):] + "." + t.Name() + "." + sf.Name
+	if knownPrivate[k] {
+		return false
+	}
+	noteUnknownPrivate(k)
+	return true
+}
+
+// UnknownPrivate returns the unexported library fields met so far that are not in the
+// list the comparator was written against; they were left out of every comparison.
+func UnknownPrivate() []string {
+	unknownMu.Lock()
+	defer unknownMu.Unlock()
+	var out []string
+	for k := range unknownPrivate {
+		out = append(out, k)
+	}
+	sort.Strings(out)
+	return out
 }
 
 type visitKey struct {
@@ -157,6 +201,9 @@ func (d *differ) walk(a, b reflect.Value, path string) {
 		for i := 0; i < t.NumField(); i++ {
 			name := t.Field(i).Name
 			if d.o.Ignore[name] {
+				continue
+			}
+			if UnknownPrivateField(t, i) {
 				continue
 			}
 			if skipAvcExt && (name == "ChromaFormat" || name == "BitDepthLumaMinus1" || name == "BitDepthChromaMinus1" || name == "NumSPSExt") {
